@@ -33,6 +33,12 @@ impl Drop for Context {
     /// the main thread and let it "do the right thing".
     fn drop(&mut self) {
         // Distinguish between a panic and a "normal" termination of the thread.
+        #[cfg(clockbound_verif)]
+        crate::verif::event(
+            crate::verif::thread_name(&self.channel_id),
+            "CtxDrop",
+            if panicking() { "panic" } else { "terminate" },
+        );
         let message = if panicking() {
             Message::ThreadPanic(self.channel_id.clone())
         } else {
@@ -62,6 +68,8 @@ fn broadcast_abort(dispatchbox: DispatchBox<ChannelId, Message>) {
     // the error, there is not much to do: any attempts at gracefully terminated a dead thread is a
     // dead end ;-).
     debug!("Broadcasting Abort message to all threads");
+    #[cfg(clockbound_verif)]
+    crate::verif::event("main", "Broadcast", "");
     let _res: Vec<_> = dispatchbox
         .keys()
         .filter(|chan| **chan != ChannelId::MainThread)
@@ -112,6 +120,8 @@ pub fn run(max_drift_ppb: u32, phc_info: Option<PhcInfo>) {
     };
     thread_handlers.push(spawn(move || shm_writer::run(ctx, max_drift_ppb)));
 
+    #[cfg(clockbound_verif)]
+    crate::verif::event("main", "Spawned", "");
     // Listen for thread termination and panic messages.
     let mbox = match mailbox.get_mailbox(&ChannelId::MainThread) {
         Some(mbox) => mbox,
@@ -125,18 +135,24 @@ pub fn run(max_drift_ppb: u32, phc_info: Option<PhcInfo>) {
             // A thread has stopped running ... for now, give it all up
             Ok(Message::ThreadTerminate(channel_id)) => {
                 error!("Received terminate message from {:?}", channel_id);
+                #[cfg(clockbound_verif)]
+                crate::verif::event("main", "MainRecv", &format!("terminate:{}", crate::verif::thread_name(&channel_id)));
                 broadcast_abort(dispatchbox.clone());
                 break;
             }
             // Got a panic message, tell everyone it is time to pick their marbles and go
             Ok(Message::ThreadPanic(channel_id)) => {
                 error!("Received panic message from {:?}", channel_id);
+                #[cfg(clockbound_verif)]
+                crate::verif::event("main", "MainRecv", &format!("panic:{}", crate::verif::thread_name(&channel_id)));
                 broadcast_abort(dispatchbox.clone());
                 break;
             }
             Ok(_) => (),
             Err(e) => {
                 error!("Lost communication with other threads, {:?}", e);
+                #[cfg(clockbound_verif)]
+                crate::verif::event("main", "MainRecv", "disconnected");
                 broadcast_abort(dispatchbox.clone());
                 break;
             }
@@ -145,10 +161,16 @@ pub fn run(max_drift_ppb: u32, phc_info: Option<PhcInfo>) {
 
     // Join all threads.
     for handle in thread_handlers {
+        #[cfg(clockbound_verif)]
+        crate::verif::event("main", "JoinStart", "");
         let _ = handle.join();
+        #[cfg(clockbound_verif)]
+        crate::verif::event("main", "JoinEnd", "");
     }
 
     info!("ClockBound daemon is exiting");
+    #[cfg(clockbound_verif)]
+    crate::verif::event("main", "Exit", "");
 }
 
 #[cfg(test)]
